@@ -73,6 +73,65 @@ def _events_of(trace):
 
 
 @safe_oracle
+def oracle_restart_events(args):
+    """a run stopped right after the step of an ACCEPTED hop, restarted from its log and continued: over the whole log every change
+    of the active state between consecutive snapshots still has exactly one hop event, every hop event a change, and the
+    continuation is on the state the log ended on"""
+    import mudslide
+    model = mudslide.models.scattering_models[args["model"]]()
+    K, dt = int(args["K"]), float(args["dt"])
+    zetas = [float(z) for z in args["zetas"]]
+    cls = getattr(mudslide, args["cls"])
+
+    def make(**kw):
+        return cls(model, np.array([args["x0"]]), np.array([args["p0"]]), 0, dt=dt, seed_sequence=7, **kw)
+    full = make(max_steps=K, zeta_list=list(zetas)).simulate()
+    hop_steps = sorted({int(round(h["time"] / dt)) for h in full.hops})
+    problems, tried = [], 0
+    for hstep in hop_steps[:3]:
+        k = hstep + 1                                     # the run stops right after the step that hopped
+        if k >= K - 1:
+            continue
+        tried += 1
+        tmp = None
+        try:
+            kw = {}
+            if args.get("store") == "yaml":
+                tmp = tempfile.mkdtemp(prefix="verif-c04-")
+                kw["tracer"] = mudslide.YAMLTrace(base_name="t", location=tmp, log_pitch=int(args.get("pitch", 5)))
+            first = make(max_steps=k, zeta_list=list(zetas), **kw)
+            log = first.simulate()
+            n0 = len(log)
+            used = len(zetas) - len(first.zeta_list)
+            r = cls.restart(model, log, max_steps=K, zeta_list=list(zetas[used:]), seed_sequence=7)
+            tr = r.simulate()
+            snaps = list(tr)
+            hops, _fr = _events_of(tr)
+            usedh = [False] * len(hops)
+            for s0, s1 in zip(snaps[:-1], snaps[1:]):
+                if s0["active"] != s1["active"]:
+                    idx = [i for i, h in enumerate(hops) if h["time"] == s0["time"] and h["from"] == s0["active"] and h["to"] == s1["active"]]
+                    if len(idx) != 1:
+                        problems.append("restart after the hop at step %d: state change %d->%d at t=%r has %d hop events"
+                                        % (hstep, s0["active"], s1["active"], s0["time"], len(idx)))
+                    else:
+                        usedh[idx[0]] = True
+            loose = [h for h, u_ in zip(hops, usedh) if not u_]
+            if loose:
+                problems.append("restart after the hop at step %d: hop event(s) without a state change: %r" % (hstep, loose[:2]))
+            if len(snaps) > n0 and snaps[n0]["active"] != snaps[n0 - 1]["active"] and not any(
+                    h["time"] == snaps[n0 - 1]["time"] for h in hops):
+                problems.append("the continuation runs on state %d, the log ended on state %d" % (snaps[n0]["active"], snaps[n0 - 1]["active"]))
+        finally:
+            if tmp:
+                shutil.rmtree(tmp, ignore_errors=True)
+        if problems:
+            break
+    return not problems, {"hops_in_the_uninterrupted_run": len(hop_steps), "restarts_tried": tried, "problems": problems[:3]}, \
+        {"problems": []}, "; ".join(problems[:2]) or "ok"
+
+
+@safe_oracle
 def oracle_run_events(args):
     """with every step logged: each change of active state between consecutive snapshots <-> exactly one hop event
     (time of the earlier snapshot, from/to the two states); each rejection <-> exactly one frustrated_hop event"""
@@ -150,7 +209,7 @@ def oracle_run_events(args):
             shutil.rmtree(tmp, ignore_errors=True)
 
 
-ORACLES = {"whole_run": rc.oracle_whole_run, "hop_rule": oracle_hop_rule, "run_events": oracle_run_events}
+ORACLES = {"restart_events": oracle_restart_events, "whole_run": rc.oracle_whole_run, "hop_rule": oracle_hop_rule, "run_events": oracle_run_events}
 
 
 def run(ctx):
@@ -209,6 +268,17 @@ def run(ctx):
 
     # whole runs against the composed step of the model (MudModel/Step.lean): every snapshot and every event
     rc.run_correspondence(ctx, ctx.budget(12, 300), hops=True, label="shrun")
+
+    # stop right after a hop, restart, continue: events vs active sequence over the whole log
+    for j in range(ctx.budget(4, 40)):
+        Kr = int(rng.integers(28, 40))
+        a = dict(cls=["TrajectorySH", "TrajectoryCum"][j % 2], model=["simple", "dual"][(j // 2) % 2], x0=-1.5, p0=float(rng.uniform(14, 22)),
+                 dt=10.0, K=Kr, zetas=[float(v) for v in 0.02 * rng.random(Kr + 6)], store=["memory", "yaml"][(j // 2) % 2], pitch=int(rng.integers(2, 8)))
+        ok, obs, req, text = oracle_restart_events(a)
+        ctx.case(("restart-events", a["cls"], a["store"], obs.get("restarts_tried", 0) > 0))
+        ctx.count("restarts_right_after_an_accepted_hop", int(obs.get("restarts_tried", 0)))
+        if not ok:
+            ctx.oracle_fail("restart-events:" + a["cls"], "restart_events", a, obs, req, text)
 
     # run level: events vs active sequence, both stores
     # (how many hops and rejections a batch of random runs contains varies a lot with the seed: batches are added until the
